@@ -147,6 +147,24 @@ def large_x_cases(ctx):
                                                  'nd.Derivative(lambda x: %s, n=%d, method=%r, order=%d)(%r) = %r, exact %r (error %.3g, envelope %.3g x local scale 1)' % (
                                                      fname, n, method, order, x0, got, exact, err, 100 * ENVELOPE[n]),
                                                  {'f': fname, 'x': x0, 'n': n, 'method': method, 'order': order, 'got': got, 'exact': exact})
+    # the offset option of the default generator (steps base * ratio**(-i + offset)): a negative offset only shrinks every step
+    for fname, f, dk in (('np.sin(10*x)', lambda x: np.sin(10 * x), lambda x, k: 10.0 ** k * math.sin(10 * x + k * math.pi / 2)),
+                         ('np.exp(x)', np.exp, lambda x, k: math.exp(x))):
+        for method in ('central', 'forward', 'backward'):
+            for n in (1, 2):
+                for offset in (-3, -6):
+                    for how in ('option', 'generator'):
+                        kw = {'offset': offset} if how == 'option' else {'step': nd.MaxStepGenerator(offset=offset)}
+                        try:
+                            got = float(np.ravel(nd.Derivative(f, n=n, method=method, **kw)(0.3))[0])
+                        except Exception:   # noqa
+                            continue
+                        ctx.count(1, ('offset', method, n))
+                        exact = dk(0.3, n)
+                        if not abs(got - exact) <= 1e-5 * 10.0 ** n:
+                            return ctx.violation('accuracy-offset:%s:%d' % (method, n),
+                                                 'nd.Derivative(lambda x: %s, n=%d, method=%r, %s)(0.3) = %r, exact %r' % (fname, n, method, 'offset=%d' % offset if how == 'option' else 'step=nd.MaxStepGenerator(offset=%d)' % offset, got, exact),
+                                                 {'f': fname, 'x': 0.3, 'n': n, 'method': method, 'offset': offset, 'given_as': how, 'got': got, 'exact': exact})
     return False
 
 
